@@ -551,6 +551,8 @@ MUTANTS = [
     M("pad-inner-lines-swapped", PD, "Padding.pad", "f\"{right_padding}\\n{left_padding}\"", "f\"{left_padding}\\n{right_padding}\"", {"R5"}),
     M("format-render-centre-right", CM, "BaseImage._format_render", "right = \" \" * (width - cols - len(left))", "right = \" \" * ((width - cols) // 2)", {"R5"}),
     M("format-render-top-bottom", CM, "BaseImage._format_render", "bottom = height - lines - top", "bottom = height - lines", {"R5"}),
+    M("lexicographic-size-check", RN, "Renderable._init_render_#4", "if not allow_scroll and height > terminal_height:", "if not allow_scroll and (width, height) > (terminal_width, terminal_height):", {"R5"}),
+    M("lexicographic-padded-size", RN, "Renderable._init_render_#4", "                if width > terminal_width:\n", "                if padding and padding.get_padded_size(render_size) > terminal_size:\n", {"R5"}),
     M("twin-far-regrouped", PD, "AlignedPadding._get_exact_dimensions_", "right = padding_width - left", "right = -left + padding_width", twin=True),
     M("twin-rename-locals", PD, "AlignedPadding._get_exact_dimensions_", "numerator", "num", twin=True, count=0),
     M("twin-resolve-explicit", PD, "AlignedPadding.resolve", "        return type(self)(width, height, *args)", "        return type(self)(width, height, self.h_align, self.v_align, self.fill)", twin=True),
